@@ -167,6 +167,53 @@ def run(tier, replay=None):
             break
     chk.count('functions that always update the dimension fields', len(must_dim))
 
+    run_r1(chk, fns, G)
+
+    # ---- R2 dimension on removal
+    run_r2(chk, fns, G, must_dim)
+
+    # ---- R3 dimension on insertion
+    access = {(m['n'], m['l']): m.get('access', 0) for m in cls['methods']}
+    run_r3(chk, fns, G, must_dim, access)
+
+    run_r3b(chk, fns, G)
+
+    # ---- R4 leaf convention
+    run_r4(chk, fns)
+
+    run_r6(chk, fns)
+    run_r7(chk, fns)
+    run_r8(chk, fns)
+
+    # ---- R5 descent guard
+    run_r5(chk, [f for f in F.functions if f['inst'] in (0, 2)])
+
+    chk.assumptions += ['clang 14 parser/Sema', 'class-local call resolution by name (overloads merged)',
+                        'tables/c01.json exemptions', 'throwing paths carry no obligation']
+    return chk
+
+
+def create_binders(f, cl):
+    """CREATE call node id -> name of the local the call's result is bound to (`auto ins = X.try_emplace(...)`)."""
+    out = {}
+    for x in ir.walk(f.get('body')):
+        if x.get('k') == 'VarDecl' and x.get('init') is not None:
+            for y in ir.walk(x['init']):
+                if 'CREATE' in cl(y):
+                    out[id(y)] = x.get('n')
+        elif x.get('k') in ('BinaryOperator', 'CXXOperatorCallExpr') and x.get('op') == '=':
+            c = x.get('c') or []
+            lhs = ir.skipcasts(c[0] if x['k'] == 'BinaryOperator' else c[1]) if c else None
+            rhs = c[-1] if c else None
+            if lhs is not None and lhs.get('k') == 'DeclRefExpr' and rhs is not None:
+                for y in ir.walk(rhs):
+                    if 'CREATE' in cl(y):
+                        out[id(y)] = lhs.get('n')
+    return out
+
+
+def run_r1(chk, fns, G, only=None, min_count=None):
+    """R1: every creation of nodes is followed on every path by their registration in the label lists"""
     # ---- R1 registration
     def reg_classify(f, must_reg):
         cl = make_classify(f)
@@ -201,6 +248,8 @@ def run(tier, replay=None):
 
     creators = []
     for f in fns:
+        if only is not None and f['name'] not in only:
+            continue
         cl = make_classify(f)
         if not ir.contains(f.get('body'), lambda x: 'CREATE' in cl(x)):
             continue
@@ -245,51 +294,12 @@ def run(tier, replay=None):
                '' if bad is None else 'a path creates nodes at line %s and never registers them in the label lists'
                % bad[1].get('l'), key='R1|%s' % f['name'])
         chk.count('R1 creating paths', n_paths)
-    chk.expect_count('R1', 'node-creating functions', len(set(creators)), TABLE['creators_min'])
-    chk.count('R1 creators confirmed by hand that still create nodes',
-              sum(1 for c in TABLE['creators_expected'] if c in creators))
+    chk.expect_count('R1', 'node-creating functions', len(set(creators)),
+                     TABLE['creators_min'] if min_count is None else min_count)
+    if only is None:
+        chk.count('R1 creators confirmed by hand that still create nodes',
+                  sum(1 for c in TABLE['creators_expected'] if c in creators))
 
-    # ---- R2 dimension on removal
-    run_r2(chk, fns, G, must_dim)
-
-    # ---- R3 dimension on insertion
-    access = {(m['n'], m['l']): m.get('access', 0) for m in cls['methods']}
-    run_r3(chk, fns, G, must_dim, access)
-
-    run_r3b(chk, fns, G)
-
-    # ---- R4 leaf convention
-    run_r4(chk, fns)
-
-    run_r6(chk, fns)
-    run_r7(chk, fns)
-    run_r8(chk, fns)
-
-    # ---- R5 descent guard
-    run_r5(chk, [f for f in F.functions if f['inst'] in (0, 2)])
-
-    chk.assumptions += ['clang 14 parser/Sema', 'class-local call resolution by name (overloads merged)',
-                        'tables/c01.json exemptions', 'throwing paths carry no obligation']
-    return chk
-
-
-def create_binders(f, cl):
-    """CREATE call node id -> name of the local the call's result is bound to (`auto ins = X.try_emplace(...)`)."""
-    out = {}
-    for x in ir.walk(f.get('body')):
-        if x.get('k') == 'VarDecl' and x.get('init') is not None:
-            for y in ir.walk(x['init']):
-                if 'CREATE' in cl(y):
-                    out[id(y)] = x.get('n')
-        elif x.get('k') in ('BinaryOperator', 'CXXOperatorCallExpr') and x.get('op') == '=':
-            c = x.get('c') or []
-            lhs = ir.skipcasts(c[0] if x['k'] == 'BinaryOperator' else c[1]) if c else None
-            rhs = c[-1] if c else None
-            if lhs is not None and lhs.get('k') == 'DeclRefExpr' and rhs is not None:
-                for y in ir.walk(rhs):
-                    if 'CREATE' in cl(y):
-                        out[id(y)] = lhs.get('n')
-    return out
 
 
 def run_r2(chk, fns, G, must_dim):
